@@ -1,0 +1,13 @@
+//go:build verif
+
+package oracle
+
+import "sync"
+
+// VerifResetOnce re-arms the start-up initialisation of BeginBlock so that an in-process
+// restart (a new application object over the same database) initialises the oracle's
+// in-memory state at the same point a freshly started process does. Only compiled with
+// the `verif` build tag; it is used by the deterministic simulator in /verif.
+func VerifResetOnce() {
+	once = sync.Once{}
+}
